@@ -20,7 +20,11 @@ RenderOK(ev) ==
          [] ev.cmd = "dump" -> ev.rows = RDumpRows(ev.body)
          [] OTHER -> FALSE
 
+\* commands that walk a whole surface (extract-unused, sector-map driven by the catalogue's total): whatever the catalogue
+\* claims, nothing delivered may come from beyond the surface
+ConfineOK(ev) == ev.foreign = 0 /\ ev.rc \in {0, 1, 2} /\ (ev.rc # 0 => ev.err = 1)
 Judge(ev) == CASE ev.e = "read" -> ReadOK(ev)
+               [] ev.e = "confine" -> ConfineOK(ev)
                [] ev.e = "render" -> RenderOK(ev)
                [] OTHER -> FALSE
 
